@@ -10,3 +10,6 @@ CHECKS['C04'] = (_SYMX + '; well-formedness assertions proved on every path',
 CHECKS['C16'] = (_SYMX + '; inductive step over an arbitrary invariant-satisfying pre-state',
                  'one-step induction: from any candidate set satisfying the representation invariant, any single operation re-establishes it and choose_random accepts candidate i with probability exactly w_i/max_weight in [0,1] (z3, all weights symbolic)',
                  'floats as reals; <= 3 (4) items in the symbolic pre-state; rejection-sampling lemma L3', 'DESIGN.md 6/C16')
+CHECKS['C05'] = (_SYMX + '; initial-state assertions, container-style / positional / wrapper equivalence under replayed draws',
+                 'every simulator and wrapper, on every configuration of the bound and every path, starts from exactly the requested state; rho requests int(round(N*rho)) nodes (z3 over symbolic rho); conflicting arguments raise EoNError',
+                 'floats as reals; graphs <= 3 (4) nodes; strictly positive delays/durations (zero values are tie cases covered by C11)', 'DESIGN.md 6/C05')
